@@ -1235,7 +1235,7 @@ def c12(tier, replay):
 # ---------------------------------------------------------------------------
 BANNED = ("ValueError", "KeyError", "AttributeError", "TypeError", "IndexError", "AssertionError", "RecursionError",
           "UnboundLocalError", "NameError", "ZeroDivisionError", "MemoryError", "OSError", "LookupError", "ArithmeticError",
-          "UnicodeError", "RuntimeError")
+          "UnicodeError", "RuntimeError", "SyntaxError")
 
 VALID_PROPHY = """\
 const LIMIT = 4;
@@ -1369,6 +1369,12 @@ def concretise(case, rnd, root):
             text += "union Z { 1: u8 a; 2: Z z; };\n"
         elif fault == "enum_self_reference":
             text += "enum Z { Z_a = Z_a + 1, Z_b = Z_c };\n"
+        elif fault == "deep_typedef_chain":
+            n = rnd.choice([1200, 3000])
+            text += "typedef u32 ZT0;\n" + "".join("typedef ZT%d ZT%d;\n" % (i, i + 1) for i in range(n)) + \
+                "struct ZS { ZT%d n; u8 x<@n>; ZT%d y; };\n" % (n, n - 1)
+        elif fault == "absurd_shift":
+            text += "const Z = 1 << %s;\n" % rnd.choice(["99999999999999", "(1 << 62)", "0x7FFFFFFFFFFFFFFF"])
         elif fault == "non_utf8":
             text = text[:30] + rnd.choice(["\udcff", "\udc80\udcfe", "\udcc3("]) + text[30:]     # written with surrogateescape
         elif fault == "non_utf8_include":
@@ -1424,6 +1430,14 @@ def concretise(case, rnd, root):
             text = text.replace('value="2"/></enum>', 'value="two"/></enum>')
         elif fault == "non_numeric_discriminator":
             text = text.replace('discriminatorValue="1"', 'discriminatorValue="one"')
+        elif fault == "absurd_shift":
+            text = text.replace("</defs>", '<constant name="ZK" value="1 &lt;&lt; 99999999999999"/><enum name="ZE"><enum-member name="ZE_a" '
+                                           'value="shiftLeft(1, 8888888888888)"/></enum></defs>')
+        elif fault == "empty_member_name":
+            text = text.replace("</defs>", rnd.choice([
+                '<struct name="Z"><member name="" type="u8"><dimension size="THIS_IS_VARIABLE_SIZE_ARRAY"/></member></struct></defs>',
+                '<struct name="Z"><member name="" type="u8"/></struct></defs>',
+                '<struct name=""><member name="a" type=""/></struct></defs>']))
         elif fault == "non_utf8":
             text = text.replace("<defs>", "<defs><!-- \udcff\udcfe -->", 1)
         elif fault == "division_by_zero":
@@ -1548,7 +1562,8 @@ def c13(tier, replay):
     fz = 6 if tier == "quick" else 400
     allcases = [c for c in cases for _ in range(fz if c["fault"] == "token_fuzz" else
                                                 reps if c["fault"] in ("random_text", "illegal_char", "empty_file", "division_by_zero",
-                                                                        "size_names_type", "non_utf8") else 1)]
+                                                                        "size_names_type", "non_utf8", "absurd_shift",
+                                                                        "empty_member_name", "deep_typedef_chain") else 1)]
     jobs = _chunks(allcases, NCPU)
     with ProcessPoolExecutor(max_workers=NCPU) as ex:
         results = list(ex.map(termination_worker, jobs, range(len(jobs)),
